@@ -280,3 +280,11 @@ def targets():
     from . import c04
     shared = [t for t in c04.targets() if "Parser.subcircuit" in t[0]]
     return [target_series(), target_parallel(), target_circuit_init(), target_glue()] + shared
+
+
+_targets_before_observers = targets
+
+
+def targets():      # noqa: F811
+    from . import purity
+    return _targets_before_observers() + [purity.target_observers(["circuit/base", "circuit/series", "circuit/parallel", "circuit/circuit", "circuit/circuit_builder", "circuit/transmission_line_model"], "circuit observers keep no state"), purity.target_modules(["circuit/parser", "circuit/tokenizer", "circuit/circuit_builder", "circuit/base", "circuit/series", "circuit/parallel", "circuit/circuit"], "circuit modules keep no state between calls")]
